@@ -338,6 +338,18 @@ theorem setConstellation_keeps_callers_array :
       = [AOut.none, AOut.none, AOut.none, AOut.indexes [0], AOut.none, AOut.indexes [1]] := by
   rfl
 
+/-- R16, the proposed repair `self.symbols = np.array(symbols)`: the table is the contents of the
+    caller's array at the time of the call; whatever the caller does to its arrays afterwards, and
+    whatever is called, every later call is computed from that table. -/
+theorem repaired_setConstellation_immune {α : Type} [Add α] [Sub α] [Mul α] [LT α] [DecidableLT α]
+    (s : AState α) (b b' : Nat) (h₁ h₂ : List (AOp α)) (hk : ∀ op ∈ h₁, op.keepsTable = true) :
+    (aOutputs s (AOp.setConstellationCopy b :: (h₁ ++ AOp.demodulate b' :: h₂)))[h₁.length + 1]?
+      = some (AOut.indexes (((aState (aStep s (AOp.setConstellationCopy b)).1 h₁).cbuf b').map
+          (demod (s.cbuf b)))) := by
+  simp only [aOutputs, List.getElem?_cons_succ]
+  exact (call_depends_on_contents_only (aStep s (AOp.setConstellationCopy b)).1 (s.cbuf b) h₁ h₂ b'
+    rfl hk).1
+
 /-- non-vacuity of the R15 / R16 statements: a strictly nearest point that wins by 2/10^12, and an
     own-table history with a refilled array -/
 example : demod ([(1, 0), (-1, 0)] : List (ℚ × ℚ)) (1/10^12, 3) = 0 ∧
